@@ -83,7 +83,8 @@ type Mu struct {
 }
 
 type thread struct {
-	sleeps  int // Sleep calls since the thread last acquired a write lock (its "phase")
+	exit    chan struct{} // closed when the thread is over (gives Join a real happens-before edge)
+	sleeps  int           // Sleep calls since the thread last acquired a write lock (its "phase")
 	id      int
 	used    bool
 	done    bool
@@ -295,6 +296,7 @@ func newThread(s *sched, name string, f func()) int {
 	t.used = true
 	t.wait = wStart
 	t.name = name
+	t.exit = make(chan struct{})
 	go threadMain(s, id, f)
 	return id
 }
@@ -313,8 +315,12 @@ func isKilled(s *sched, id int) bool {
 	return s.threads[id].killed
 }
 
+//go:norace
+func exitChan(s *sched, id int) chan struct{} { return s.threads[id].exit }
+
 func threadExit(s *sched, id int) {
 	r := recover()
+	defer close(exitChan(s, id))
 	if r != nil {
 		if _, ok := r.(killedT); !ok {
 			buf := make([]byte, 16<<10)
@@ -748,6 +754,8 @@ func Join(tid int) {
 	t.join = tid
 	t.wait = wJoin
 	yield(s, id)
+	// the joined thread is over: synchronise with its exit like a real join does
+	<-s.threads[tid].exit
 }
 
 // Choose is an environment decision with n options; option 0 is the default,
